@@ -44,6 +44,10 @@ def main():
         n = rng.choice([1, 3, 8, 20, 64])
         names.append("".join(chr(rng.choice([rng.randrange(32, 127), rng.randrange(0xa0, 0x2000)])) for _ in range(n)))
     rc = [[nm, [rng.choice(valid)]] for nm in names] + [["s", [v]] for v in valid]
+    # orders created without a separator argument while config.order_sep holds a run-time value (valid, invalid, length 0 / 2)
+    for cfg in ["@", "#", " ", "/", "é", "::", "", "_", "a", "-", "1", "\n"]:
+        for nm in ["", "s", "ünïcödé-ßtrategy", "x" * 500]:
+            rc.append([nm, [45], [ord(ch) for ch in cfg]])
     ro = run_impl("c19", {"job": "refs", "cases": rc})["out"]
     cs = ["(%s, %s, %s, %s)" % tuple(lz(x) for x in r) for r in ro]
     outs = coq_eval("c19ref", HDR, ["Definition cases : list (str*str*str*str) := %s.\nEval vm_compute in (bad_idx ref_ok cases, bad_idx ref_prop cases).\n" % cl(ch) for ch in chunked(cs, 800)])
